@@ -19,6 +19,8 @@ var c12Scripts = []string{
 	`return {KEYS[1], ARGV[1], 7}`,
 	`return redis.call('LRANGE', KEYS[1], 0, -1)`,
 	`return redis.call('HGET', KEYS[1], ARGV[1])`,
+	`return redis.error_reply('ERR c12 script failure on ' .. KEYS[1])`,
+	`return redis.call('LPUSH', KEYS[1], 'x')`,
 }
 
 func c12Sha(script string) string {
